@@ -355,6 +355,37 @@ def is_access_path(e):
     return all(isinstance(n, ACCESS_PATH + (ast.Load, ast.USub)) for n in ast.walk(e))
 
 
+def init_aliases(fi):
+    """{parameter name: 'self.<attr>'} for the parameters an initialiser stores unchanged (`self.x = x`, x never rebound):
+    inside that function the parameter and the attribute are the same object"""
+    out = {}
+    params = set(fi.params)
+    rebound = set()
+    for n in fi.own_nodes():
+        if isinstance(n, (ast.Assign, ast.AugAssign, ast.AnnAssign)):
+            for t in (n.targets if isinstance(n, ast.Assign) else [n.target]):
+                for x in ast.walk(t):
+                    if isinstance(x, ast.Name) and isinstance(x.ctx, ast.Store):
+                        rebound.add(x.id)
+    for st in fi.node.body:
+        if isinstance(st, ast.Assign) and len(st.targets) == 1 and isinstance(st.targets[0], ast.Attribute) and isinstance(st.targets[0].value, ast.Name) \
+                and st.targets[0].value.id == "self" and isinstance(st.value, ast.Name) and st.value.id in params and st.value.id not in rebound:
+            out.setdefault(st.value.id, f"self.{st.targets[0].attr}")
+    return out
+
+
+def canon_self(fi, expr, aliases=None):
+    """text of ``expr`` with aliased initialiser parameters written as the attributes they are stored in"""
+    aliases = init_aliases(fi) if aliases is None else aliases
+
+    class R(ast.NodeTransformer):
+        def visit_Name(self, node):
+            if isinstance(node.ctx, ast.Load) and node.id in aliases:
+                return ast.parse(aliases[node.id], mode="eval").body
+            return node
+    return norm(R().visit(clone(expr)))
+
+
 def wired(flow, expr, wants):
     """is ``expr`` (after replacing locals by their reaching definitions) one of the wanted reference texts?
     -> ('equal'|'different'|'unknown', expanded text).  'different' only when the expression is a plain reference to
